@@ -75,7 +75,10 @@ def gen_history(rng, tree, nops):
             ops.append({"op": "popmiss", "xp": miss, "d": rng.choice([None, "D", 0])})
             continue
         p = rng.choice(poss)
-        xp = X.render(rng, ref, p)
+        # hidden lists: a node on the path that is not a list may be followed by [0] / [-1] / [last()], which lookup reads
+        # as the node itself - delete and pop must accept the spelling and remove the node itself
+        hid = []
+        xp = X.render(rng, ref, p, hidden=0.08, hidden_at=hid)
         if r < 0.45:
             rec = rng.random() < 0.5
             ops.append({"op": "del", "pos": list(p), "xp": xp, "rec": rec})
@@ -91,6 +94,8 @@ def gen_history(rng, tree, nops):
             v = copy.deepcopy(rng.choice(VALUES))
             ops.append({"op": "set", "pos": list(p), "xp": xp, "v": v})
             X.get_at(ref, p[:-1])[p[-1]] = copy.deepcopy(v)
+        if hid:
+            ops[-1]["hid"] = hid
     return ops
 
 
@@ -135,6 +140,9 @@ def valid_case(c):
     ref = copy.deepcopy(c["tree"])
     for op in c["ops"]:
         try:
+            for k in op.get("hid", []):     # a hidden index addresses the node only while the node is not a list
+                if isinstance(X.get_at(ref, op["pos"][:k]), list):
+                    return False
             if op["op"] in ("del", "pop"):
                 X.get_at(ref, op["pos"])
                 ref_delete(ref, op["pos"], op["rec"])
